@@ -7,6 +7,6 @@ CONSTANTS
 CONSTRAINT Furthest
 INVARIANT CacheCoherent
 INVARIANT NextIsCount
-INVARIANT AllOrNone
+INVARIANT KnownAllOrNone
 POSTCONDITION Post
 CHECK_DEADLOCK FALSE
